@@ -9,6 +9,7 @@ import Propka.Model.ProfilesDriver
 import Propka.Model.DetsDriver
 import Propka.Model.EnergyDriver
 import Propka.Model.Protonate
+import Propka.Model.PairLoop
 /-! Line-protocol driver: one request per line `<module> <args…>`, one response line each. -/
 open Propka
 
@@ -26,6 +27,7 @@ def dispatch (ws : List String) : String :=
   | "energy" :: r => Energy.handle r
   | "iter" :: r => Iter.handle r
   | "prot" :: r => Prot.handle r
+  | "pairloop" :: r => PairLoop.handle r
   | "topup" :: r => TopUp.handle r
   | ["ping"] => "pong"
   | _ => "bad-op"
